@@ -623,7 +623,7 @@ class GetContextStatesByIdentification(AbstractGet):
     action = Actions.GetContextStatesByIdentification
     Identification = cp.SubElementListProperty(msg.Identification, value_class=InstanceIdentifier)
     ContextType = cp.QNameAttributeProperty('ContextType')
-    _props = ('HandleRef',)
+    _props = ('Identification', 'ContextType')
 
 
 class GetContextStatesByIdentificationResponse(AbstractGetResponse):
@@ -642,7 +642,8 @@ class GetContextStatesByFilter(AbstractGet):
     NODETYPE = msg.GetContextStatesByFilter
     action = Actions.GetContextStatesByFilter
     Filter = cp.SubElementStringListProperty(msg.Filter)
-    _props = ('HandleRef',)
+    ContextType = cp.QNameAttributeProperty('ContextType')
+    _props = ('Filter', 'ContextType')
 
 
 class GetContextStatesByFilterResponse(AbstractGetResponse):
